@@ -840,11 +840,15 @@ def check_C05(ctx):
                     j = b2.add('FWD %d %s %s' % (v, sx.point_sx(p), sx.to_sx(s)))
                     k = b2.add('EVAL %s %s' % (sx.point_sx(p), sx.to_sx(s)))
                     second.append((j, k))
+        agree_expr = agree
         for p, ie, ifw, ipe, ide in idx['PTS']:
             for j in (ie, ifw, ipe, ide):
-                agree = rep.corr(b, j) and agree
+                rep.corr(b, j)
             if any(b.status[j] in ('range', 'fuel') for j in (ie, ifw, ipe, ide)):
                 continue
+            # agreement of implementation and model on THIS point (a point that left the double range must
+            # not colour the verdict on another point)
+            agree = agree_expr and all(b.status[j] == 'agree' for j in (ie, ifw, ipe, ide))
             ev, fw = core.parse_outcome(b.impl[ie]), core.parse_outcome(b.impl[ifw])
             if ev[0] != 'VAL' or fw[0] != 'VAL' or not finite_val(fw):
                 continue
